@@ -108,6 +108,15 @@ class Level:
                 break
         if self.start is not None and self.start in self.ignore_refs:
             raise IllFormed('start rule is ignored')
+        # without a rule called start a grammar starts with its first rule -- the first one that is a
+        # rule of the language, not an ignore declaration.  (What a DERIVED grammar without any rule
+        # called start in its chain starts with is not settled by the statements: never generated.)
+        self.named_start = self.start is not None
+        if self.start is None and parent is None:
+            for nm in self.order:
+                if nm not in self.ignore_refs:
+                    self.start = nm
+                    break
 
 
 def build_chain(grammars):
@@ -151,10 +160,10 @@ class Model:
     def entry_name(self):
         lv = self.ctx
         while lv is not None:
-            if lv.start is not None:
+            if lv.start is not None and (lv.named_start or self.ctx.parent is None):
                 return lv.start
             lv = lv.parent
-        return self.ctx.order[0]
+        raise IllFormed('no rule called start anywhere in the chain')
 
     # -- ignore -----------------------------------------------------------
     def ignore_level(self, lit_level):
@@ -306,7 +315,9 @@ class Model:
         if k == 'str' or k == 'bstr':
             s = e[1]
             if len(s) == 0:
-                return (s if k == 'bstr' else '', p)
+                # the empty literal always matches -- and, like every matched literal, is followed by
+                # a skip of ignorable text
+                return (s if k == 'bstr' else '', self.lit_end(p, p, lvl))
             if t[p:p + len(s)] == s:
                 return (s, self.lit_end(p, p + len(s), lvl))
             return FAIL
